@@ -7,6 +7,7 @@ namespace Avfs.Conc
 structure FnInfo where
   pkg : String
   name : String          -- `Type.method` or `func`
+  short : String         -- method / function name without the receiver type
   recv : String
   params : List String
   exported : Bool
@@ -19,14 +20,18 @@ structure Fact where
   line : Nat
   field : String         -- accessed field / mutex field acquired
   write : Bool           -- write access / exclusive acquisition
-  owner : String         -- canonical owner expression
+  oroot : String         -- canonical owner expression = oroot ++ orest (root identifier, then the field path)
+  orest : String
   okind : String         -- recv | param | reach | local | fresh
   callee : String
-  args : List String     -- receiver followed by the arguments (non-object arguments are "_")
+  aroots : List String   -- receiver followed by the arguments (non-object arguments are "_"), split like the owner
+  arests : List String
   akinds : List String
   held : List String     -- locks certainly held: `owner#mutex:mode`
   note : String
   deriving DecidableEq, Repr
+
+def Fact.owner (f : Fact) : String := f.oroot ++ f.orest
 
 /-- the mutex field of the owner that guards a field -/
 def guardField (f : String) : String :=
@@ -44,63 +49,51 @@ def accessHeld (f : Fact) : Bool :=
   | some false => !f.write
   | none => false
 
-/-- a requirement a function puts on its callers: the lock `mutex` of the object `owner` (an expression over the
-    function's receiver / parameters) must be held, exclusively if `excl` -/
+/-- a requirement a function puts on its callers: the lock `mutex` of the object `root ++ rest` (an expression over
+    the function's receiver / parameters) must be held, exclusively if `excl`; `kind` says what `root` is there -/
 structure Req where
   fn : String
   pkg : String
-  owner : String
+  root : String
+  rest : String
+  kind : String
   mutex : String
   excl : Bool
   deriving DecidableEq, Repr
 
-def rootOf (e : String) : String := ((e.splitOn ".").headD e |>.splitOn "[").headD e
-
-/-- substitute the root identifier of `e` -/
-def substRoot (e : String) (frm to : String) : String :=
-  if e == frm then to
-  else if e.startsWith (frm ++ ".") then to ++ (e.drop frm.length).toString
-  else e
-
-def fnMatches (callee : String) (n : String) : Bool := n == callee || n.endsWith ("." ++ callee)
+def zip3 : List String → List String → List String → List (String × String × String)
+  | a :: as, b :: bs, c :: cs => (a, b, c) :: zip3 as bs cs
+  | _, _, _ => []
 
 /-- one round of requirement propagation through the call facts -/
 def propagate (fns : List FnInfo) (facts : List Fact) (reqs : List Req) : List Req :=
   let new := facts.flatMap fun f =>
     if f.kind != "call" then [] else
-    (fns.filter fun g => g.pkg == f.pkg && fnMatches f.callee g.name).flatMap fun g =>
+    (fns.filter fun g => g.pkg == f.pkg && g.short == f.callee).flatMap fun g =>
       (reqs.filter fun r => r.fn == g.name && r.pkg == g.pkg).filterMap fun r =>
         -- map the callee's receiver / parameter to the actual argument
         let formals := g.recv :: g.params
-        let root := rootOf r.owner
-        match (formals.zip (f.args.zip f.akinds)).find? (fun (p, _) => p == root && p != "") with
+        match (formals.zip (zip3 f.aroots f.arests f.akinds)).find? (fun (p, _) => p == r.root && p != "") with
         | none => none
-        | some (_, actual, kind) =>
-          if actual == "_" || actual == "" then none else
-          let owner := substRoot r.owner root actual
-          match heldMode f.held (owner ++ "#" ++ r.mutex) with
+        | some (_, aroot, arest, kind) =>
+          if aroot == "_" || aroot == "" then none else
+          let nr : Req := { fn := f.fn, pkg := f.pkg, root := aroot, rest := arest ++ r.rest, kind := kind, mutex := r.mutex, excl := r.excl }
+          match heldMode f.held (aroot ++ arest ++ r.rest ++ "#" ++ r.mutex) with
           | some true => none
-          | some false => if r.excl then some { fn := f.fn, pkg := f.pkg, owner := owner ++ "!" ++ kind, mutex := r.mutex, excl := r.excl } else none
-          | none => some { fn := f.fn, pkg := f.pkg, owner := owner ++ "!" ++ kind, mutex := r.mutex, excl := r.excl }
+          | some false => if r.excl then some nr else none
+          | none => some nr
   (reqs ++ new).eraseDups
 
 /-- requirements arising directly from accesses whose lock is not held locally -/
 def directReqs (facts : List Fact) : List Req :=
   (facts.filterMap fun f =>
     if f.kind == "access" && !accessHeld f && f.okind != "fresh" then
-      some { fn := f.fn, pkg := f.pkg, owner := f.owner ++ "!" ++ f.okind, mutex := guardField f.field, excl := f.write }
+      some { fn := f.fn, pkg := f.pkg, root := f.oroot, rest := f.orest, kind := f.okind, mutex := guardField f.field, excl := f.write }
     else none).eraseDups
 
-/-- strip the kind marker -/
-def Req.clean (r : Req) : Req := { r with owner := (r.owner.splitOn "!").headD r.owner }
-def Req.kind (r : Req) : String := (r.owner.splitOn "!").getLastD ""
-
-/-- all requirements after `n` rounds; owners keep the kind marker of where they were found -/
 def allReqs (fns : List FnInfo) (facts : List Fact) : Nat → List Req
   | 0 => directReqs facts
-  | n + 1 =>
-    let r := allReqs fns facts n
-    propagate fns facts (r.map fun x => { x.clean with owner := x.clean.owner }) ++ r |>.eraseDups
+  | n + 1 => propagate fns facts (allReqs fns facts n)
 
 /-- a requirement is a *violation site* when the object it is about is not handed in by the caller
     (it is a local alias of a shared object: nobody can hold the lock on the function's behalf) or when the function
@@ -108,7 +101,7 @@ def allReqs (fns : List FnInfo) (facts : List Fact) : Nat → List Req
 def violations (fns : List FnInfo) (facts : List Fact) (rounds : Nat) : List (String × String × String × String × Bool) :=
   ((allReqs fns facts rounds).filterMap fun r =>
     let exported := fns.any fun g => g.pkg == r.pkg && g.name == r.fn && g.exported
-    if r.kind == "local" || exported then some (r.pkg, r.fn, r.clean.owner, r.mutex, r.excl) else none).eraseDups
+    if r.kind == "local" || exported then some (r.pkg, r.fn, r.root ++ r.rest, r.mutex, r.excl) else none).eraseDups
 
 /-- nested acquisitions: (package, function, lock wanted, locks held) -/
 def nested (facts : List Fact) : List (String × String × String × List String) :=
@@ -120,13 +113,22 @@ def selfAcquire (facts : List Fact) : List (String × String × Nat) :=
   facts.filterMap fun f =>
     if f.kind == "acquire" && (heldMode f.held (f.owner ++ "#" ++ f.field)).isSome then some (f.pkg, f.fn, f.line) else none
 
-/-- every access and call of `fn` happens while `lock` is held (exclusively if `excl`): one critical section -/
-def singleSection (facts : List Fact) (pkg fn lock : String) (excl : Bool) : Bool :=
-  (facts.filter fun f => f.pkg == pkg && f.fn == fn && (f.kind == "access" || f.kind == "call")).all fun f =>
+/-- does a function of this name touch guarded state (directly)? -/
+def touches (fns : List FnInfo) (facts : List Fact) (pkg short : String) : Bool :=
+  facts.any fun f => f.pkg == pkg && f.kind == "access" && fns.any fun g => g.pkg == pkg && g.short == short && g.name == f.fn
+
+/-- every access of `fn`, and every call of a function that touches guarded state, happens while `lock` is held
+    (exclusively if `excl`): the function is one critical section -/
+def singleSection (fns : List FnInfo) (facts : List Fact) (pkg fn lock : String) (excl : Bool) : Bool :=
+  (facts.filter fun f => f.pkg == pkg && f.fn == fn &&
+      (f.kind == "access" || (f.kind == "call" && touches fns facts pkg f.callee))).all fun f =>
     match heldMode f.held lock with
     | some true => true
     | some false => !excl
     | none => false
+
+/-- set equality of two lists -/
+def sameSet {α} [BEq α] (a b : List α) : Bool := a.all b.contains && b.all a.contains
 
 def unknownFacts (facts : List Fact) : List (String × String × Nat × String) :=
   facts.filterMap fun f => if f.kind == "unknown" then some (f.pkg, f.fn, f.line, f.note) else none
